@@ -135,4 +135,4 @@ class AddLineUnknownVersion(Contract):
                      models=models, minimize=[vl], expect_paths=8,
                      replay=lambda w: {"target": "bounded.replay_helpers:add_line_unknown_version",
                                        "args": [w["rt"], w["vlevel"], w["VN"], w["header_has_VN"], w["segment_version"], w.get("line_can_be_parsed", True), w.get("header_can_be_merged", True)]},
-                     confirm=lambda w, out: out.get("kind") != "return" or out.get("value") is not True)]
+                     confirm=battery_confirm)]
